@@ -2,7 +2,7 @@
 import numpy as np
 
 from .tn_core import TOL, ISO_TOL, arrays_of
-from .tn_ctor import TNCtor, cplx
+from .tn_ctor import TNCtor, cplx, rep_scalar
 from . import dense as dn
 from .base import HarnessError
 
@@ -32,7 +32,7 @@ class TNOps(TNCtor):
         worst = 0.0
         for A in o.ref.A:
             worst = max(worst, dn.isometry_defect(site_matrix(np.asarray(A), o.kind, mode)))
-        return self.check(worst <= ISO_TOL, props, clause, lambda: f'site tensors are not {mode}-isometries: max defect {worst:.3e}')
+        return self.check(worst <= ISO_TOL * o.prec, props, clause, lambda: f'site tensors are not {mode}-isometries: max defect {worst:.3e}')
 
     def op_scale_H_inplace(self, op):
         """History: the user rescales one tensor of a Hamiltonian in place (a coupling ramped between calls); the
@@ -86,7 +86,7 @@ class TNOps(TNCtor):
     def transient_extreme(self, o, op):
         """Same object, tensors of extreme but compensating magnitude (exact powers of two); every in-place
         algorithm starts with a QR sweep that re-balances it, so no extreme object stays in the pool."""
-        if op.get('extreme') and len(o.ref.A) >= 2 and not any(np.issubdtype(a.dtype, np.integer) for a in o.ref.A) \
+        if op.get('extreme') and len(o.ref.A) >= 2 and o.prec == 1.0 and not o.longp and not any(np.issubdtype(a.dtype, np.integer) for a in o.ref.A) \
                 and not any(o.ref.A[i] is o.ref.A[j] for i in range(len(o.ref.A)) for j in range(i)) \
                 and not any(x is not o and any(np.may_share_memory(a, b) for a in x.ref.A for b in o.ref.A) for x in self.live()):
             e = 560
@@ -123,13 +123,13 @@ class TNOps(TNCtor):
         if not self.check(isnum and c >= 0, P, 'factor_nonneg_real', lambda: f'returned factor {c!r}'):
             return 'ok'
         c = float(c)
-        self.check(abs(c - nv) <= TOL * sc, P, 'factor_is_norm', lambda: f'returned {c!r}, norm of original {nv!r} (scale {sc:.3e})')
+        self.check(abs(c - nv) <= TOL * sc * o.prec, P, 'factor_is_norm', lambda: f'returned {c!r}, norm of original {nv!r} (scale {sc:.3e})')
         dev = float(np.linalg.norm(c * o.dense - v))
-        self.check(dev <= TOL * sc, P, 'reconstruct', lambda: f'|c*new - old|={dev:.3e} (|old|={nv:.3e}, scale {sc:.3e}, mode {mode}, {o.kind})')
+        self.check(dev <= TOL * sc * o.prec, P, 'reconstruct', lambda: f'|c*new - old|={dev:.3e} (|old|={nv:.3e}, scale {sc:.3e}, mode {mode}, {o.kind})')
         self.isometry_ok(o, mode, P, 'isometry')
         if nv > 1e-6 * sc:
             n1 = float(np.linalg.norm(o.dense))
-            self.check(abs(n1 - 1) <= ISO_TOL * 10, P, 'unit_norm', lambda: f'|new|={n1!r}')
+            self.check(abs(n1 - 1) <= ISO_TOL * 10 * o.prec, P, 'unit_norm', lambda: f'|new|={n1!r}')
         else:
             self.probe('orth_zero_object')
         bd1 = bond_dims(o.ref, o.kind)
@@ -313,6 +313,8 @@ class TNOps(TNCtor):
             if not all(dn.is_int_1d_array(q) for q in r.qD):
                 return 'skipped'
             c = int(g.integers(-3, 4)) or 2
+            if any(np.issubdtype(np.asarray(q).dtype, np.unsignedinteger) for q in r.qD):
+                c = abs(c)
             if max(int(np.abs(q).max()) for q in r.qD) > 2 ** 60:
                 return 'skipped'
             r.qD = [np.array(q) + c for q in r.qD]
@@ -388,7 +390,10 @@ class TNOps(TNCtor):
                 self.probe('compress_tol_between_cumulative_weights')
         bd0 = bond_dims(o.ref, 'mps')
         q0 = (o.ref.qD[0][0], o.ref.qD[-1][0]) if dn.is_int_1d_array(o.ref.qD[0]) and dn.is_int_1d_array(o.ref.qD[-1]) else None
-        st, res = self.guarded(op, lambda: o.ref.compress(tol, mode=mode), targets=(o,), owners=('C13',))
+        tol_a = rep_scalar(tol, op.get('rep'))
+        st, res = self.guarded(op, lambda: o.ref.compress(tol_a, mode=mode), targets=(o,), owners=('C13',))
+        if isinstance(tol_a, np.ndarray):
+            self.check(float(tol_a) == float(tol), ['C19', 'C13'], 'tolerance_argument_modified', lambda: f'the 0-d array passed as tolerance changed from {tol!r} to {float(tol_a)!r}')
         if st != 'ok':
             return st
         o.traj = None
@@ -497,8 +502,8 @@ class TNOps(TNCtor):
         okq = dn.is_int_1d_array(qb) and len(qb) == A0.shape[2] == A1.shape[1]
         self.check(okq, ['C02', 'C12'], 'split_bond_labels', lambda: f'qbond {qb!r} for shapes {A0.shape} {A1.shape}')
         if okq and dn.is_int_1d_array(r.qd) and dn.is_int_1d_array(r.qD[i]) and dn.is_int_1d_array(r.qD[i + 2]):
-            o0 = dn.offsupport_max(A0, [r.qd, r.qD[i], -np.asarray(qb)])
-            o1 = dn.offsupport_max(A1, [r.qd, qb, -np.asarray(r.qD[i + 2])])
+            o0 = dn.offsupport_max(A0, [r.qd, r.qD[i], -np.asarray(qb)], dn.label_modulus(r.qd, r.qD[i], qb))
+            o1 = dn.offsupport_max(A1, [r.qd, qb, -np.asarray(r.qD[i + 2])], dn.label_modulus(r.qd, qb, r.qD[i + 2]))
             self.check(o0 == 0.0 and o1 == 0.0, ['C02', 'C12'], 'split_block_sparse', lambda: f'off-support entries {o0!r} {o1!r}')
         # write the pieces back into the state (tensor splitting as a state update)
         if okq and len(qb) >= 1:
@@ -527,6 +532,8 @@ class TNOps(TNCtor):
             A, q0, q1 = st['A'], st['q0'], st['q1']
             how = op.get('mutate', 'negate')
             kept = [(x, x.tobytes()) for x in st.get('out', []) if isinstance(x, np.ndarray)]
+            if how == 'negate' and np.issubdtype(q0.dtype, np.unsignedinteger):
+                how = 'shift'
             if how == 'negate':
                 q0 *= -1
                 q1 *= -1
@@ -561,6 +568,15 @@ class TNOps(TNCtor):
             A = T.reshape(T.shape[0] * T.shape[1], T.shape[2]).copy()
             q0 = np.add.outer(np.asarray(r.qd), np.asarray(r.qD[i])).reshape(-1).copy()
             q1 = np.array(r.qD[i + 1])
+            qdt = op.get('qdtype')
+            if qdt:
+                # the caller's charge vectors in a narrower / unsigned integer type (values unchanged)
+                dt_ = np.dtype(qdt)
+                info = np.iinfo(dt_)
+                if min(int(q0.min()), int(q1.min())) >= max(info.min // 2, -2 ** 40) and max(int(q0.max()), int(q1.max())) <= min(info.max // 2, 2 ** 40):
+                    q0 = q0.astype(dt_)
+                    q1 = q1.astype(dt_)
+                    self.probe('kernel_charge_dtype_' + qdt)
             mag = op.get('magnitude', 'normal')
             if which == 'qr' and mag == 'tiny':
                 A = A * 2.0 ** -560
@@ -613,12 +629,13 @@ class TNOps(TNCtor):
         if st != 'ok':
             return st
         o = self.add_obj(kind, ref, tag)
+        o.prec = max(o.prec, a.prec, b.prec)
         self.check_c02(o, f'{tag} result')
         if o.retired:
             self.unusable(o, ['C03', 'C02'], f'{tag} returned an object that cannot be contracted')
             return 'ok'
         dev = float(np.linalg.norm(o.dense - want))
-        self.check(dev <= TOL * max(sc, float(np.linalg.norm(want))), 'C03', tag + '_dense', lambda: f'|dense({tag}) - expected|={dev:.3e} scale={sc:.3e}')
+        self.check(dev <= TOL * max(sc, float(np.linalg.norm(want))) * o.prec, 'C03', tag + '_dense', lambda: f'|dense({tag}) - expected|={dev:.3e} scale={sc:.3e}')
         self.scribble(o)
         return 'ok'
 
@@ -697,7 +714,7 @@ class TNOps(TNCtor):
             return 'ok'
         ok = v.shape == o.dense.shape
         dev = float(np.linalg.norm(v - o.dense)) if ok else np.inf
-        self.check(ok and dev <= TOL * o.scale, 'C03', 'as_vector', lambda: f'|as_vector - contraction|={dev:.3e}')
+        self.check(ok and dev <= TOL * o.scale * o.prec, 'C03', 'as_vector', lambda: f'|as_vector - contraction|={dev:.3e}')
         return 'ok'
 
     def op_as_matrix(self, op):
@@ -719,17 +736,17 @@ class TNOps(TNCtor):
             return 'ok'
         ok = M.shape == o.dense.shape
         dev = float(np.linalg.norm(M - o.dense)) if ok else np.inf
-        self.check(ok and dev <= TOL * o.scale, 'C03', 'as_matrix_sparse' if sp else 'as_matrix_dense', lambda: f'|as_matrix - contraction|={dev:.3e} shape {M.shape}')
+        self.check(ok and dev <= TOL * o.scale * o.prec, 'C03', 'as_matrix_sparse' if sp else 'as_matrix_dense', lambda: f'|as_matrix - contraction|={dev:.3e} shape {M.shape}')
         return 'ok'
 
-    def _scalar_ok(self, got, want, sc, clause):
+    def _scalar_ok(self, got, want, sc, clause, prec=1.0):
         try:
             g = complex(got)
             ok = np.isfinite(g.real) and np.isfinite(g.imag)
         except Exception:
             ok = False
             g = got
-        self.check(ok and abs(g - want) <= TOL * sc, 'C04', clause, lambda: f'got {g!r}, dense value {want!r} (scale {sc:.3e})')
+        self.check(ok and abs(g - want) <= TOL * sc * prec, 'C04', clause, lambda: f'got {g!r}, dense value {want!r} (scale {sc:.3e})')
 
     def op_vdot(self, op):
         a = self.pick(op['a'], 'mps')
@@ -739,7 +756,7 @@ class TNOps(TNCtor):
         st, x = self._read(op, (a, b), lambda: self.ptn.vdot(a.ref, b.ref), ('C04',))
         if st != 'ok':
             return st
-        self._scalar_ok(x, np.vdot(a.dense, b.dense), a.scale * b.scale, 'vdot')
+        self._scalar_ok(x, np.vdot(a.dense, b.dense), a.scale * b.scale, 'vdot', self.P(a, b))
         return 'ok'
 
     def op_norm(self, op):
@@ -753,7 +770,7 @@ class TNOps(TNCtor):
         if nv <= 1e-6 * a.scale:
             self.skip('norm_of_cancelled_state')
             return 'ok'
-        self._scalar_ok(x, nv, a.scale, 'norm')
+        self._scalar_ok(x, nv, a.scale, 'norm', self.P(a))
         return 'ok'
 
     def op_op_avg(self, op):
@@ -766,7 +783,7 @@ class TNOps(TNCtor):
         st, x = self._read(op, (psi, H), lambda: self.ptn.operator_average(psi.ref, H.ref), ('C04',))
         if st != 'ok':
             return st
-        self._scalar_ok(x, np.vdot(psi.dense, H.dense @ psi.dense), psi.scale ** 2 * H.scale, 'operator_average')
+        self._scalar_ok(x, np.vdot(psi.dense, H.dense @ psi.dense), psi.scale ** 2 * H.scale, 'operator_average', self.P(psi, H))
         return 'ok'
 
     def op_op_inner(self, op):
@@ -778,7 +795,7 @@ class TNOps(TNCtor):
         st, x = self._read(op, (chi, psi, H), lambda: self.ptn.operator_inner_product(chi.ref, H.ref, psi.ref), ('C04',))
         if st != 'ok':
             return st
-        self._scalar_ok(x, np.vdot(chi.dense, H.dense @ psi.dense), chi.scale * psi.scale * H.scale, 'operator_inner_product')
+        self._scalar_ok(x, np.vdot(chi.dense, H.dense @ psi.dense), chi.scale * psi.scale * H.scale, 'operator_inner_product', self.P(chi, psi, H))
         return 'ok'
 
     def op_op_density(self, op):
@@ -789,7 +806,7 @@ class TNOps(TNCtor):
         st, x = self._read(op, (a, b), lambda: self.ptn.operator_density_average(a.ref, b.ref), ('C04',))
         if st != 'ok':
             return st
-        self._scalar_ok(x, np.trace(b.dense @ a.dense), a.scale * b.scale, 'operator_density_average')
+        self._scalar_ok(x, np.trace(b.dense @ a.dense), a.scale * b.scale, 'operator_density_average', self.P(a, b))
         return 'ok'
 
     def op_env_blocks(self, op):
